@@ -23,7 +23,7 @@ def load_engine(crates=("typegen", "description")):
         path, sh, dt = mirdump.dump(c)
         info["source_hash"] = sh; info["dump_s"] += dt
         for k, f in parse_mir(open(path).read()).items(): fns.setdefault(k, f)
-    for c in ("typegen", "description"): E.scan_enums(os.path.join(REPO, c, "src"))
+    for c in ("typegen", "description"): E.scan_enums(os.path.join(REPO, c, "src")); E.scan_generic_fns(os.path.join(REPO, c, "src"))
     E.add_enum("Cached", ["Recursive", "Computed"])
     eng = FastEngine(fns, REPO + "/")
     info["functions_in_dump"] = len(fns)
